@@ -48,9 +48,23 @@ pub fn gen_sentence_from(ch: &mut Choices, ag: &AG, rule: usize, max_len: usize)
                 let p = if budget_left {
                     *ch.choose(&usable)
                 } else {
-                    // cheapest; ties broken by first
-                    *usable.iter().min_by_key(|p| prod_cost(r, **p)).unwrap()
+                    // cheapest; ties broken by fewest rule symbols (a unit cycle A: A | 'a' must not
+                    // be followed forever), then by first
+                    *usable
+                        .iter()
+                        .min_by_key(|p| {
+                            (
+                                prod_cost(r, **p),
+                                ag.rules[r].prods[**p].syms.iter().filter(|s| matches!(s, Sym::R(_))).count(),
+                            )
+                        })
+                        .unwrap()
                 };
+                if steps > 40 * max_len + 400 {
+                    // derivation cycles can still trap the minimal expansion: give up (the
+                    // oracle labels every input, so a non-sentence is fine)
+                    break;
+                }
                 for sy in ag.rules[r].prods[p].syms.iter().rev() {
                     stack.push(*sy);
                 }
